@@ -116,7 +116,7 @@ def run(check: Check) -> None:
     fns = {
         "shunting": [None], "shunting_paren": [None],
         "signrun": [{"SHARD": c, "N": (5 if thorough else 3)} for c in range(8)],
-        "identity": list(range(12)), "forms": [None],
+        "identity": list(range(23)), "forms": [None],
         "stream1": list(range(16)), "stream2": list(range(16)),
         "stream3": list(range(19)),
     }
